@@ -63,7 +63,7 @@ func wellFormedness(model []byte) string {
 }
 
 // queryAll asks every codec question about s and compares with the reference for model.
-func queryAll(p *interpreter.DefaultOpcodeParser, s *bscript.Script, model []byte, at int) (*kept, error) {
+func queryAll(ctx *pbt.Ctx, p, fp *interpreter.DefaultOpcodeParser, s *bscript.Script, model []byte, at int) (*kept, error) {
 	fail := func(f string, a ...any) error {
 		return fmt.Errorf("after step %d (script %s): %s", at, short(model), fmt.Sprintf(f, a...))
 	}
@@ -138,6 +138,10 @@ func queryAll(p *interpreter.DefaultOpcodeParser, s *bscript.Script, model []byt
 	if err := checkOps(); err != nil {
 		return nil, err
 	}
+	// the long-lived parser with ErrorOnCheckSig on the same bytes
+	if ferr := checkFlagged(ctx, fp, model, v, ops, perr); ferr != nil {
+		return nil, fail("%v", ferr)
+	}
 	if perr == nil {
 		if k.back, err = p.Unparse(ops); err != nil || k.back == nil || !bytes.Equal(*k.back, model) {
 			return nil, fail("Unparse(Parse(s)) = %v, %v", k.back, err)
@@ -197,8 +201,9 @@ func checkHistory(ctx *pbt.Ctx, c History) error {
 	buf := append(make([]byte, 0, len(model)+c.Spare), model...)
 	s := bscript.NewFromBytes(buf)
 	p := &interpreter.DefaultOpcodeParser{}
+	fp := &interpreter.DefaultOpcodeParser{ErrorOnCheckSig: true}
 	var keep []*kept
-	k, err := queryAll(p, s, model, 0)
+	k, err := queryAll(ctx, p, fp, s, model, 0)
 	if err != nil {
 		return err
 	}
@@ -273,7 +278,7 @@ func checkHistory(ctx *pbt.Ctx, c History) error {
 		}
 		ctx.Label("edit:" + st.Op)
 		key = append(key, []byte(st.Op), []byte(fmt.Sprint(len(model))))
-		if k, err = queryAll(p, s, model, i+1); err != nil {
+		if k, err = queryAll(ctx, p, fp, s, model, i+1); err != nil {
 			return fmt.Errorf("%v [edit was %s]", err, st.Op)
 		}
 		keep = append(keep, k)
@@ -361,7 +366,7 @@ func TestHistory(t *testing.T) {
 			return c
 		},
 		Check:    checkHistory,
-		EnumDesc: "P2PKH-shaped script 76 a9 14<20> 88 ac: every single byte overwritten in place with each of 00 01 4c 4d 4e 6a ff, then restored (3 query rounds on one object); every truncation followed by an append that completes or exceeds the cut push; one push of each boundary length 75/76/255/256 appended to the empty script and to the script with 0 / 600 bytes of spare capacity",
+		EnumDesc: "the byte behind an OP_RETURN at top level / inside an IF block / after a closed block overwritten in place with all 256 values, an opcode appended, the byte restored (768 histories); P2PKH-shaped script 76 a9 14<20> 88 ac: every single byte overwritten in place with each of 00 01 4c 4d 4e 6a ff, then restored (3 query rounds on one object); every truncation followed by an append that completes or exceeds the cut push; one push of each boundary length 75/76/255/256 appended to the empty script and to the script with 0 / 600 bytes of spare capacity",
 		Enum: func(tier string, yield func(History)) {
 			base := append(append([]byte{0x76, 0xa9, 0x14}, bytes.Repeat([]byte{0x33}, 20)...), 0x88, 0xac)
 			for pos := range base {
@@ -372,6 +377,16 @@ func TestHistory(t *testing.T) {
 			for cut := 0; cut < len(base); cut++ {
 				for _, spare := range []int{0, 64} {
 					yield(History{Init: base, Spare: spare, Steps: []HStep{{Op: "cut", Pos: cut}, {Op: "ops", Bytes: pbt.Hex{0x51, 0x6a, 0x00}}, {Op: "push", Items: []Item{{Len: 20, Pat: pbt.Hex{0x11}}}}}})
+				}
+			}
+			// the first byte behind an OP_RETURN (top level / inside a branch) swept in place, then restored
+			for b := 0; b < 256; b++ {
+				for _, init := range []pbt.Hex{{0x51, 0x6a, 0x00, 0x00}, {0x63, 0x6a, 0x00, 0x68}, {0x63, 0x68, 0x6a, 0x00}} {
+					pos := 2
+					if init[2] == 0x6a {
+						pos = 3
+					}
+					yield(History{Init: init, Steps: []HStep{{Op: "set", Pos: pos, Val: byte(b)}, {Op: "ops", Bytes: pbt.Hex{0x00}}, {Op: "set", Pos: pos, Val: 0x00}}})
 				}
 			}
 			for _, n := range []int{1, 75, 76, 255, 256} {
